@@ -186,7 +186,7 @@ def serial(prog):
   """JSON-able form of a program (sets -> lists, tuples -> lists)."""
   def conv(x):
     if isinstance(x, (set, frozenset)):
-      return sorted(conv(v) for v in x)
+      return sorted((conv(v) for v in x), key=str)
     if isinstance(x, (list, tuple)):
       return [conv(v) for v in x]
     if isinstance(x, dict):
